@@ -13,7 +13,7 @@ CLAUSES = {
     "velocity": "velocity()/variables[u,v] equal the location-addressed bilinear x linear-in-depth interpolation with zero land faces",
     "scalar": "scalar forcing is the value of the particle's own cell at one of the two bracketing levels",
     "linear-exact": "a field a_k + b x + c y is reproduced exactly (and linear in depth over a flat bottom)",
-    "packed": "packed storage (scale_factor; offset for scalars) gives the scaled values, with the packing attributes of the file the frame comes from",
+    "packed": "packed storage (scale_factor and add_offset) gives the unpacked values, with the packing attributes of the file the frame comes from",
 }
 BOUNDS = {
     "quick": "global 7x6 rho grid, N=2 levels (N=3 on one subgrid), legal subgrids {full, [1,6,1,5], [2,6,1,4], [1,5,2,5]}, 1 particle anywhere in the valid region incl. cell edges, any depth (one scenario with a second particle in another column and depth); all node values, masks, level depths, scale factors symbolic",
@@ -41,6 +41,7 @@ def scenarios(tier):
     out.append(dict(name="band-west", fn="band", params=dict(N=2, sub=[2, 6, 1, 5], side="west"), cost=20))
     out.append(dict(name="band-south", fn="band", params=dict(N=2, sub=[1, 6, 2, 5], side="south"), cost=20))
     out.append(dict(name="packed", fn="interp", params=dict(N=2, sub=[1, 6, 1, 5], packed=True), cost=20))
+    out.append(dict(name="packed-offset", fn="interp", params=dict(N=2, sub=[1, 6, 1, 5], packed="offset"), cost=20))
     out.append(dict(name="packed-scale-only", fn="interp", params=dict(N=2, sub=[1, 6, 1, 5], packed="scale-only"), cost=20))
     out.append(dict(name="packed-v-only", fn="interp", params=dict(N=2, sub=[1, 6, 1, 5], packed="v-only"), cost=20))
     out.append(dict(name="packed-second-file", fn="interp", params=dict(N=2, sub=[1, 6, 1, 5], packed=True, twofiles=True), cost=25))
@@ -96,7 +97,10 @@ def _setup(W, p, fields=None, mask_all_sea=False):
     if p.get("packed"):
         su, sv, sT, oT = W.real("scale_u", W.frac(1, 1000), 1), W.real("scale_v", W.frac(1, 1000), 1), W.real("scale_T", W.frac(1, 1000), 1), W.real("offset_T", -5, 5)
         scale, offs = dict(u=su, v=sv, temp=sT), dict(u=0, v=0, temp=oT)
-        if p["packed"] == "scale-only":
+        if p["packed"] == "offset":
+            # velocity packed as a CF packer (NCO ncpdq) writes it: with a non-zero add_offset
+            offs = dict(u=W.real("offset_u", -1, 1), v=W.real("offset_v", -1, 1), temp=oT)
+        elif p["packed"] == "scale-only":
             offs = dict(u=None, v=None, temp=oT)  # scale_factor without an add_offset attribute
         elif p["packed"] == "v-only":
             scale, offs = dict(v=sv, temp=sT), dict(v=0, temp=oT)  # u stored as float, v packed
@@ -232,6 +236,8 @@ def _oracle(W, p, N, x, y, zp, ci, cj, z, u, v, temp, mask, scale, offs):
 
     su = scale.get("u", 1) if scale else 1
     sv = scale.get("v", 1) if scale else 1
+    ou = ((offs or {}).get("u") or 0) if scale and "u" in scale else 0
+    ov = ((offs or {}).get("v") or 0) if scale and "v" in scale else 0
     gu = _floor(W, x - W.frac(1, 2))
     pu = x - W.frac(1, 2) - gu
     ju = _floor(W, y)
@@ -240,7 +246,7 @@ def _oracle(W, p, N, x, y, zp, ci, cj, z, u, v, temp, mask, scale, offs):
     for dj, di, w in ((0, 0, (1 - pu) * (1 - qu)), (0, 1, pu * (1 - qu)), (1, 0, (1 - pu) * qu), (1, 1, pu * qu)):
         jj, gg = ju + dj, gu + di
         node = a * u[0][klo][jj][gg] + (1 - a) * u[0][khi][jj][gg]
-        exp_u = exp_u + w * node * su * uface(jj, gg)
+        exp_u = exp_u + w * (ou + node * su) * uface(jj, gg)
     iv = _floor(W, x)
     pv = x - iv
     gv = _floor(W, y - W.frac(1, 2))
@@ -249,7 +255,7 @@ def _oracle(W, p, N, x, y, zp, ci, cj, z, u, v, temp, mask, scale, offs):
     for dj, di, w in ((0, 0, (1 - pv) * (1 - qv)), (0, 1, pv * (1 - qv)), (1, 0, (1 - pv) * qv), (1, 1, pv * qv)):
         gg, ii = gv + dj, iv + di
         node = a * v[0][klo][gg][ii] + (1 - a) * v[0][khi][gg][ii]
-        exp_v = exp_v + w * node * sv * vface(gg, ii)
+        exp_v = exp_v + w * (ov + node * sv) * vface(gg, ii)
     sT, oT = (scale["temp"], offs["temp"]) if scale else (1, 0)
     return exp_u, exp_v, (ci, cj, [oT + sT * temp[0][klo][cj][ci], oT + sT * temp[0][khi][cj][ci]], (gu, ju, iv, gv, klo, khi))
 
